@@ -1448,11 +1448,22 @@ func main() {
 			panic(err)
 		}
 	}
-	h.wd.Beat("oracle build")
-
-	// (2) compiled Go
+	// (2) compiled Go.  The watchdog guards the implementation, not the Go compiler: the thorough oracle (160 sessions)
+	// took more than its 2 minutes to build on the loaded machine and the run was cut short as a "hang" - keep it alive
+	stopBeat := make(chan struct{})
+	go func() {
+		for {
+			h.wd.Beat("oracle build (go build + run of the plain-Go copies)")
+			select {
+			case <-stopBeat:
+				return
+			case <-time.After(15 * time.Second):
+			}
+		}
+	}()
 	var diverge []interface{}
 	want, err := buildOracle(a.Path("oracle"), h.oracle)
+	close(stopBeat)
 	if err != nil {
 		rep.Fail(vh.Failure{Key: "C35:oracle-build", What: "the plain-Go copies do not compile with go build", Got: err.Error()})
 	} else {
